@@ -182,9 +182,19 @@ class _Req(object):
         self.accept_mimetypes = _Accept(choice)
 
 
-def _check_negotiation(code_i, choice, which):
+PRE = [None, 'text/html', 'application/json', 'application/xml', 'text/plain']
+
+
+def _check_negotiation(code_i, choice, which, pre_i=0):
     cls = ERROR_CODE_MAP[CODES[code_i]]
     e = cls()
+    if pre_i in (1, 2, 3, 4):
+        e.adapt(PRE[pre_i])          # e.g. a shared instance already served to another client, or mimetype= at construction
+    elif pre_i == 5:
+        try:
+            e = cls(mimetype='application/json')
+        except TypeError:
+            e = cls()
     req = _Req(choice)
     if which == 0:
         out = ErrorHandler().render_error(req, e)
@@ -199,13 +209,13 @@ def _check_negotiation(code_i, choice, which):
         and out.status_code == cls.code
 
 
-def ob_negotiation(code_i: int, choice: int, which: int) -> bool:
+def ob_negotiation(code_i: int, choice: int, which: int, pre_i: int = 0) -> bool:
     with untraced():
-        return _check_negotiation(code_i, choice - 1, which)
+        return _check_negotiation(code_i, choice - 1, which, pre_i)
 
 
-def confirm_negotiation(code_i, choice, which):
-    return not _check_negotiation(code_i, choice - 1, which)
+def confirm_negotiation(code_i, choice, which, pre_i=0):
+    return not _check_negotiation(code_i, choice - 1, which, pre_i)
 
 
 def _real_accept(acc_i, code_i):
